@@ -4,6 +4,8 @@ import Bolt.Driver.Api
 import Bolt.Driver.Store
 import Bolt.Driver.Grow
 import Bolt.Driver.Cursor
+import Bolt.Driver.Batch
+import Bolt.Driver.Versions
 open Bolt.Driver
 
 def main (args : List String) : IO UInt32 := do
@@ -14,6 +16,8 @@ def main (args : List String) : IO UInt32 := do
   | ["store"] => cmdStore; return 0
   | ["grow"] => cmdGrow; return 0
   | ["cursor"] => cmdCursor; return 0
+  | ["batch"] => cmdBatch; return 0
+  | ["versions"] => cmdVersions; return 0
   | ["api-verbose"] => cmdApi true; return 0
   | ["decode", path, os] => cmdDecode path (parseNat os) false; return 0
   | ["decode-verbose", path, os] => cmdDecode path (parseNat os) true; return 0
